@@ -105,6 +105,8 @@ func init() {
 		Rule: "1-4 concurrent API clients add (valid/invalid .torrent, magnet, explicit colliding ids), remove, start, stop, add trackers, list and get torrents in one real session with 2-5 ports, with seeded yields before every mutex acquisition in rain; per phase the recorded invoke/return history is checked with porcupine against a sequential registry model (unique ids, distinct ports, capacity), then quiescent invariants (ids unique, ports distinct and in range, free+owned=range, session == resume DB buckets), CompactDatabase + reopen of the compacted file, Close + NewSession on the same DB with field-by-field comparison, and a resumer Write/Read round trip of 20 generated records; non-trivial always (each run executes >=3 operations and a restart); distinct = distinct event-trace hashes"}
 	props["C17"] = &propCfg{Scenarios: []scenarioRef{{"limits", 3}, {"transfer_byz", 1}}, OwnsCrash: true, Level: "exploration",
 		Rule: "a real session with generated small limits (dial/accept 1-4, addresses 2-20, web seed sources 1-3 / downloads 1-2, write cache 1-4 pieces, read cache 64K-1M, rate limits 8-256 KiB/s, requests in 1-20) under a swarm of 3-9 scripted peers (seeding, leeching, redialling, disconnecting), 0-5 web seeds, bad-handshake actors (silent, garbage, wrong info-hash, dribbling, closing), bursts of bogus addresses and a request flooder that stops reading; every 200 ms the monitor compares transport-level open connections per direction, concurrent web seed requests, contacted web seed sources, Stats()/SessionStats counters and every window of cumulative bytes against the configured limits; failed handshakes must be closed by the SUT; at the end the torrent is stopped and removed and every reservation must be back; non-trivial if a piece write happened or the SUT was pre-seeded; distinct = distinct event-trace hashes"}
+	props["C20"] = &propCfg{Scenarios: []scenarioRef{{"apistress", 4}, {"lifecycle", 1}, {"registry", 1}, {"transfer_byz", 1}, {"crash", 1}}, OwnsCrash: true, Level: "exploration", Race: true, QuickBudget: 150 * time.Second,
+		Rule: "the simulator is built with the Go race detector (-race); 2-5 concurrent clients use the public API (Stats, Peers, Trackers, Webseeds, Files, FileStats, Magnet, Torrent, Port/Name, AddPeer by IP and by host name, AddTracker, Announce, Start, Stop, Verify, AddTorrent+RemoveTorrent of a second torrent, ListTorrents, CompactDatabase, CleanDatabase, StartAll) and the RPC client (rainrpc over the simulated network) with seeded gaps while the torrent downloads from / uploads to scripted peers and web seeds and the session writes resume data every 0.2-3 s; every race report whose accesses are not both inside the simulator's own packages is a violation keyed by the two innermost function pairs; a call that has not returned for two simulated minutes, rain's own 'torrent does not respond' health check and any other crash are violations; non-trivial if a piece write happened; distinct = distinct event-trace hashes"}
 	props["C15"] = &propCfg{Scenarios: []scenarioRef{{"trackers", 1}}, Level: "exploration",
 		Rule: "1-3 torrents announcing to 1-3 tiers of scripted HTTP and UDP trackers whose reply scripts are generated (ok with any 32-bit interval / min interval or none, failure with retry-in, 4xx/5xx, garbage, oversize, no reply, delays; UDP: wrong transaction id, short, duplicate, datagram loss/duplication, connection-id expiry), down windows, start/stop/announce commands, optional seed so that 'completed' happens; every announce is checked online (info-hash, port, peer id vs handshake, counters, event discipline per run, spacing); non-trivial if more than two announces were received; distinct = distinct event-trace hashes among non-trivial runs"}
 	props["C16"] = &propCfg{Scenarios: []scenarioRef{{"trackers", 1}}, OwnsCrash: true, Level: "exploration",
@@ -162,6 +164,9 @@ func (r *runner) run(scenario string, seed uint64, planFile string, extraEnv ...
 		env = append(env, "SIM_PLAN="+planFile)
 	} else {
 		env = append(env, "SIM_SCENARIO="+scenario, "SIM_SEED="+strconv.FormatUint(seed, 10), "SIM_PLAN_OUT="+planOut)
+	}
+	if strings.HasSuffix(r.bin, "race.test") {
+		env = append(env, "GORACE=log_path="+filepath.Join(r.workDir, id+".race")+" halt_on_error=0 exitcode=0 history_size=4")
 	}
 	env = append(env, extraEnv...)
 	cmd.Env = env
@@ -724,22 +729,32 @@ func main() {
 			o.Viol = v
 			fallthrough
 		case "violation":
-			v := normViol(o.Viol, prop, cfg)
-			switch {
-			case v.Property != prop:
-				foreign[sigOf(v)]++
-				if foreign[sigOf(v)] == 1 {
-					fmt.Printf("foreign: %s seed=%d %s: %s\n", o.Scenario, o.Seed, sigOf(v), v.Detail)
+			// a run may carry several violations (data races are collected, not terminal)
+			vs := []*Violation{o.Viol}
+			if o.Res != nil && len(o.Res.Violations) > 1 {
+				vs = nil
+				for i := range o.Res.Violations {
+					vs = append(vs, &o.Res.Violations[i])
 				}
-			case matchFinding(findings, v) != nil:
-				known[matchFinding(findings, v).ID]++
-			default:
-				if newViol == nil {
-					o.Viol = v
-					newViol = o
-					if !stopped {
-						stopped = true
-						close(stop)
+			}
+			for _, v0 := range vs {
+				v := normViol(v0, prop, cfg)
+				switch {
+				case v.Property != prop:
+					foreign[sigOf(v)]++
+					if foreign[sigOf(v)] == 1 {
+						fmt.Printf("foreign: %s seed=%d %s: %s\n", o.Scenario, o.Seed, sigOf(v), v.Detail)
+					}
+				case matchFinding(findings, v) != nil:
+					known[matchFinding(findings, v).ID]++
+				default:
+					if newViol == nil {
+						o.Viol = v
+						newViol = o
+						if !stopped {
+							stopped = true
+							close(stop)
+						}
 					}
 				}
 			}
